@@ -179,6 +179,7 @@ type Obligation struct {
 	Goal    string
 	Taint   bool
 	Pos     string
+	Prelude *string
 	Cover   bool   // reachability query: the path condition itself must not be unsat
 	Result  string // unsat, sat, unknown, timeout
 	Backend string
